@@ -41,15 +41,20 @@ type gate struct {
 }
 
 var (
-	gatesMu sync.Mutex
-	gates   = map[*syncer.Syncer]*gate{}
+	gatesMu   sync.Mutex
+	gates     = map[*syncer.Syncer]*gate{}
+	recorders = map[*syncer.Syncer]*fleetRecorder{}
 )
 
 func dispatchYield(s *syncer.Syncer, point string, args ...interface{}) {
 	gatesMu.Lock()
 	g := gates[s]
+	rec := recorders[s]
 	gatesMu.Unlock()
 	if g == nil {
+		if rec != nil {
+			rec.onYield(point, args)
+		}
 		return
 	}
 	g.parked <- parkEvent{Point: point, Args: args}
